@@ -109,9 +109,17 @@ func VerifC04_NewRequest() {
 
 // verifRestartFixture: a manager holding one arbitrary record and optionally a registered validator.
 func verifRestartFixture(nR int) (*verifMgr, channels.VerifRecord, datatransfer.ChannelID) {
-	f, st, chid := verifInstalled(1, nR)
+	// the channel may have received later vouchers (of other types); only the validator of the
+	// voucher type the channel was OPENED with may decide a restart
+	f, st, chid := verifInstalled(1+zz.Choice("laterVouchers", 2), nR)
 	if zz.Bool("registered") {
 		zz.Assert(f.m.RegisterVoucherType(st.Vouchers[0].Type, f.val) == nil, "register")
+	}
+	if len(st.Vouchers) > 1 && st.Vouchers[1].Type != st.Vouchers[0].Type && zz.Bool("otherValidatorRegistered") {
+		// a second, always-accepting validator for the later voucher's type
+		other := &verifValidator{Result: datatransfer.ValidationResult{Accepted: true}}
+		f.otherVal = other
+		_ = f.m.RegisterVoucherType(st.Vouchers[1].Type, other)
 	}
 	f.val.Result, f.val.Err = verifArbitraryResult("val")
 	return f, st, chid
@@ -120,9 +128,21 @@ func verifRestartFixture(nR int) (*verifMgr, channels.VerifRecord, datatransfer.
 // VerifC04_RestartRequest: an arbitrary incoming RESTART request for a stored channel.
 func VerifC04_RestartRequest() {
 	f, st, chid := verifRestartFixture(0)
-	req := verifArbitraryRequest("req")
+	// an otherwise valid restart request (field mismatches are C05's subject), optionally tampered with
+	req := verifScalarRequest("req")
 	zz.Assume(req.MessageType == uint64(types.RestartMessage))
 	req.TransferId = uint64(chid.ID)
+	base := st.BaseCid
+	req.BaseCidPtr = &base
+	req.SelectorPtr = st.Selector.Node
+	req.VoucherPtr = st.Vouchers[0].Voucher.Node
+	req.VoucherTypeIdentifier = st.Vouchers[0].Type
+	switch zz.Choice("tamper", 3) {
+	case 1:
+		req.VoucherPtr = nil
+	case 2:
+		req.VoucherTypeIdentifier = datatransfer.TypeIdentifier(zz.String("otherType"))
+	}
 	sender := chid.Initiator
 	zz.Assume(st.SelfPeer == st.Responder) // requests are received by the responder
 	// cleanup statuses are transient: any applied event merely finishes the pending cleanup (see C03/C10)
@@ -138,6 +158,10 @@ func VerifC04_RestartRequest() {
 	consulted := len(f.val.Calls) > 0
 	wantAccept := consulted && f.val.Err == nil && f.val.Result.Accepted
 	zz.Assert(reply.Accepted() == wantAccept, "restart accepted exactly when re-validation accepted without error")
+	if f.otherVal != nil && st.Vouchers[1].Type != st.Vouchers[0].Type {
+		zz.Assert(len(f.otherVal.Calls) == 0, "a validator registered for another voucher type is never the one consulted")
+		zz.Reach("second validator present")
+	}
 	post := f.g.VerifPeek(chid)
 	zz.Assert(post != nil && f.g.VerifLen() == 1, "no channel appears or disappears")
 	if consulted {
